@@ -1072,6 +1072,34 @@ func canonComparisons(fn *ssa.Function) {
 			if xk && !yk {
 				bo.X, bo.Y, bo.Op = bo.Y, bo.X, f
 			}
+			// integer tests against the neighbours of zero: x <= -1 is x < 0, x > -1 is x >= 0; a
+			// length is never negative: len(s) < 1 and len(s) <= 0 are len(s) == 0, len(s) > 0 and
+			// len(s) >= 1 are len(s) != 0
+			k, isK := bo.Y.(*ssa.Const)
+			if !isK || k.Value == nil || k.Value.Kind() != constant.Int || !isIntegerType(bo.X.Type()) {
+				continue
+			}
+			kv, exact := constant.Int64Val(k.Value)
+			if !exact {
+				continue
+			}
+			zero := ssa.NewConst(constant.MakeInt64(0), k.Type())
+			isLen := false
+			if call, isC := bo.X.(*ssa.Call); isC {
+				if bi, isB := call.Call.Value.(*ssa.Builtin); isB && (bi.Name() == "len" || bi.Name() == "cap") {
+					isLen = true
+				}
+			}
+			switch {
+			case isLen && (bo.Op == token.LSS && kv == 1 || bo.Op == token.LEQ && kv == 0):
+				bo.Op, bo.Y = token.EQL, zero
+			case isLen && (bo.Op == token.GTR && kv == 0 || bo.Op == token.GEQ && kv == 1):
+				bo.Op, bo.Y = token.NEQ, zero
+			case bo.Op == token.LEQ && kv == -1:
+				bo.Op, bo.Y = token.LSS, zero
+			case bo.Op == token.GTR && kv == -1:
+				bo.Op, bo.Y = token.GEQ, zero
+			}
 		}
 	}
 	dropRef := func(v ssa.Value, user ssa.Instruction) {
@@ -1119,6 +1147,83 @@ func canonComparisons(fn *ssa.Function) {
 					b.Succs[0], b.Succs[1] = b.Succs[1], b.Succs[0]
 				}
 			}
+		}
+	}
+	// polarity: `if !(a == b) { T }` and `if a != b { T }` are the same statement; the builder gives the
+	// first the test a == b with T as the *false* successor. The test is written the way that makes the
+	// body (then-part, loop body, case body, right operand of &&) the true successor.
+	neg := map[token.Token]token.Token{token.EQL: token.NEQ, token.NEQ: token.EQL, token.LSS: token.GEQ, token.GEQ: token.LSS, token.LEQ: token.GTR, token.GTR: token.LEQ}
+	negatable := func(v ssa.Value, user ssa.Instruction) (*ssa.BinOp, bool) {
+		cmp, ok := v.(*ssa.BinOp)
+		if !ok {
+			return nil, false
+		}
+		if _, isCmp := neg[cmp.Op]; !isCmp {
+			return nil, false
+		}
+		if bt, isB := cmp.X.Type().Underlying().(*types.Basic); isB && bt.Info()&(types.IsFloat|types.IsComplex) != 0 {
+			return nil, false // !(a < b) is not a >= b for NaN
+		}
+		refs := cmp.Referrers()
+		if refs == nil {
+			return nil, false
+		}
+		for _, r := range *refs {
+			if _, isD := r.(*ssa.DebugRef); !isD && r != user {
+				return nil, false
+			}
+		}
+		return cmp, true
+	}
+	for _, b := range fn.Blocks {
+		for _, ins := range b.Instrs {
+			// a negated comparison as a value: !(a < b) is a >= b
+			un, ok := ins.(*ssa.UnOp)
+			if !ok || un.Op != token.NOT || un.Referrers() == nil {
+				continue
+			}
+			cmp, ok := negatable(un.X, un)
+			if !ok {
+				continue
+			}
+			cmp.Op = neg[cmp.Op]
+			for _, user := range *un.Referrers() {
+				for _, op := range user.Operands(nil) {
+					if *op == ssa.Value(un) {
+						*op = cmp
+					}
+				}
+				if refs := cmp.Referrers(); refs != nil {
+					*refs = append(*refs, user)
+				}
+			}
+			*un.Referrers() = nil
+			dropRef(cmp, un)
+			un.X = ssa.NewConst(constant.MakeBool(false), un.Type()) // (dead)
+		}
+	}
+	// how much a successor looks like "the part executed when the test holds": the then-part of the if
+	// statement the test belongs to, a case body, the right operand of &&, a loop body (a join block in
+	// front of a loop is threaded into the loop body, so a loop body can also be the *false* successor
+	// of an if statement)
+	rank := map[string]int{"if.then": 3, "switch.body": 3, "cond.true": 2, "for.body": 1, "rangeindex.body": 1}
+	for _, b := range fn.Blocks {
+		if len(b.Instrs) == 0 || len(b.Succs) != 2 {
+			continue
+		}
+		iff, ok := b.Instrs[len(b.Instrs)-1].(*ssa.If)
+		if !ok {
+			continue
+		}
+		r0, r1 := rank[b.Succs[0].Comment], rank[b.Succs[1].Comment]
+		// (a then-part that only jumps - `break`, `continue` - is folded away by the builder: then the
+		// false successor of `if c { break }` is the join block "if.done")
+		if !(r1 > r0 || (r0 == 0 && r1 == 0 && b.Succs[0].Comment == "if.done" && b.Succs[1].Comment != "if.done")) {
+			continue
+		}
+		if cmp, ok := negatable(iff.Cond, iff); ok {
+			cmp.Op = neg[cmp.Op]
+			b.Succs[0], b.Succs[1] = b.Succs[1], b.Succs[0]
 		}
 	}
 }
